@@ -12,6 +12,7 @@ import (
 	"github.com/veraison/psatoken"
 	"pgregory.net/rapid"
 
+	"verifharness/icbor"
 	"verifharness/icose"
 )
 
@@ -51,6 +52,11 @@ func c08Gates(m *MClaims, c psatoken.IClaims, kp keyPair, st *Stats) string {
 	// gate 2/3: validate-and-encode
 	plainC, plainCErr := psatoken.EncodeClaimsToCBOR(c)
 	gotC, err := psatoken.ValidateAndEncodeClaimsToCBOR(c)
+	snapC, snapPlainC := string(gotC), string(plainC)
+	interfere()
+	if string(gotC) != snapC || string(plainC) != snapPlainC {
+		return "bytes returned by (ValidateAnd)EncodeClaimsToCBOR changed while other claims-sets were being encoded"
+	}
 	if (err == nil) != (valid && plainCErr == nil) {
 		return fmt.Sprintf("ValidateAndEncodeClaimsToCBOR: err=%v, Validate()=%v, plain encoder err=%v", err, verr, plainCErr)
 	}
@@ -66,6 +72,11 @@ func c08Gates(m *MClaims, c psatoken.IClaims, kp keyPair, st *Stats) string {
 	st.Class("gate=EncodeCBOR")
 	plainJ, plainJErr := psatoken.EncodeClaimsToJSON(c)
 	gotJ, err := psatoken.ValidateAndEncodeClaimsToJSON(c)
+	snapJ, snapPlainJ := string(gotJ), string(plainJ)
+	interfere()
+	if string(gotJ) != snapJ || string(plainJ) != snapPlainJ {
+		return "bytes returned by (ValidateAnd)EncodeClaimsToJSON changed while other claims-sets were being encoded"
+	}
 	if (err == nil) != (valid && plainJErr == nil) {
 		return fmt.Sprintf("ValidateAndEncodeClaimsToJSON: err=%v, Validate()=%v, plain encoder err=%v", err, verr, plainJErr)
 	}
@@ -87,6 +98,16 @@ func c08Gates(m *MClaims, c psatoken.IClaims, kp keyPair, st *Stats) string {
 	tok, err := evV.ValidateAndSign(kp.Signer())
 	if (err == nil) != (valid && plainSErr == nil) {
 		return fmt.Sprintf("ValidateAndSign: err=%v, Validate()=%v, Sign err=%v", err, verr, plainSErr)
+	}
+	if err == nil {
+		snapT := string(tok)
+		interfere()
+		if string(tok) != snapT {
+			return "the token returned by ValidateAndSign changed while other claims-sets were being encoded"
+		}
+		if evV.Verify(kp.Pub) != nil || evS.Verify(kp.Pub) != nil {
+			return "a signing Evidence stops verifying after other claims-sets were encoded"
+		}
 	}
 	if err != nil && len(tok) != 0 {
 		return "ValidateAndSign returned a token together with an error"
@@ -120,16 +141,31 @@ func c08Gates(m *MClaims, c psatoken.IClaims, kp keyPair, st *Stats) string {
 	if plainCErr != nil {
 		wire = m.WireBytes()
 	}
-	d0, derr := psatoken.DecodeClaimsFromCBOR(wire)
-	d1, err := psatoken.DecodeAndValidateClaimsFromCBOR(wire)
-	if derr != nil {
-		if err == nil {
-			return "DecodeAndValidateClaimsFromCBOR accepts bytes the plain decoder rejects"
+	// the same bytes, and harmless re-wrappings of them (tags, an unknown
+	// extra key): whatever the plain decoder accepts, the validating one must
+	// judge by Validate()
+	variants := [][]byte{wire}
+	if wn, _, rerr := icbor.Read(wire); rerr == nil && wn.Kind == icbor.KMap {
+		for _, tg := range []uint64{6, 24, 55799} {
+			variants = append(variants, icbor.Encode(icbor.Tag(tg, wn)))
 		}
-	} else {
+		variants = append(variants, icbor.Encode(icbor.Tag(55799, icbor.Tag(55799, wn))))
+		x := wn.Clone()
+		x.Pairs = append(x.Pairs, icbor.P(icbor.U(99999), icbor.Tstr("extra")))
+		variants = append(variants, icbor.Encode(x))
+	}
+	for vi, wire := range variants {
+		d0, derr := psatoken.DecodeClaimsFromCBOR(wire)
+		d1, err := psatoken.DecodeAndValidateClaimsFromCBOR(wire)
+		if derr != nil {
+			if err == nil {
+				return "DecodeAndValidateClaimsFromCBOR accepts bytes the plain decoder rejects"
+			}
+			continue
+		}
 		dv := d0.Validate()
 		if (err == nil) != (dv == nil) {
-			return fmt.Sprintf("DecodeAndValidateClaimsFromCBOR: err=%v, Validate() of the decoded set=%v", err, dv)
+			return fmt.Sprintf("DecodeAndValidateClaimsFromCBOR (input variant %d: %x...): err=%v, Validate() of the decoded set=%v", vi, wire[:4], err, dv)
 		}
 		if err != nil && d1 != nil {
 			return "DecodeAndValidateClaimsFromCBOR returned claims together with an error"
@@ -139,7 +175,7 @@ func c08Gates(m *MClaims, c psatoken.IClaims, kp keyPair, st *Stats) string {
 				return "validating and non-validating CBOR decoders differ: " + d
 			}
 		}
-		if plainCErr == nil && (dv == nil) != valid {
+		if vi == 0 && plainCErr == nil && (dv == nil) != valid {
 			return fmt.Sprintf("validity changed across encode->decode: before %v, after %v", verr, dv)
 		}
 	}
